@@ -1,5 +1,6 @@
 import GorumsV.Props.C06
 import GorumsV.Generated.Exprs
+import GorumsV.Tie.TreeParams
 import GorumsV.Lemmas.GoETac
 /-!
   Tie for C06: in every call type the skip test of the per-node loop is "the per-node
@@ -35,6 +36,13 @@ def envW (oneway nsw : Bool) : Env := envOf [("req.opts.callType", if oneway the
 theorem waitForSend_good (oneway nsw : Bool) : ev (envW oneway nsw) Generated.ch_waitForSend = .bool (oneway && !nsw) := by
   cases oneway <;> cases nsw <;> simp [Generated.ch_waitForSend, ev, envW, envOf, veq, vnot]
 
+
+/-! ### own message, end to end (composite system `Net`) -/
+
+/-- one id per call from the manager-wide counter, carried by every message of the call (read from the tree):
+    the premise under which "the request with this id addressed to this node" is unique -/
+theorem net_ids_good : Tie.Tree.idFacts = true := by decide
+
 end GorumsV.Tie.C06
 
 section Audit
@@ -51,4 +59,8 @@ open GorumsV.Tie.C06 GorumsV.C06
 #print axioms expected_eq_targets
 #print axioms mcast_waits_for_confirmations
 #print axioms mcast_nosendwaiting
+#print axioms net_ids_good
+#print axioms GorumsV.NetP.server_receives_own_payload
+#print axioms GorumsV.NetP.handler_payload_is_addressed
+#print axioms GorumsV.NetP.issue_unique
 end Audit
